@@ -109,6 +109,7 @@ func init() {
 			{ID: "C07.R2", Title: "no fixed-width Go store at an address computed by multiplying with a run-time size field; such elements are written with typedmemmove", Covers: "bytes after a short array keep their contents", Min: 4, Run: c07r2},
 			{ID: "C07.R3", Title: "typedmemmove(T, dst, src): src allocated with unsafe_New(T) of the same T; slice/array decoders take their stride from elemType.Size() of the element type they store", Covers: "moves copy exactly one value of the right type", Min: 8, Run: c07r3},
 			{ID: "C07.R5", Title: "every array obtained from newArray(T, n) is wrapped in a slice header whose cap is n (composite literal, or `h.cap = n` beside `h.data = newArray(T, n)`), so the element loop's capacity test bounds the allocation", Covers: "elements are written only inside the working array", Min: 8, Run: c07r5},
+			{ID: "C07.R6", Title: "in the decoder and the Unmarshal entry points no local uintptr computed from a pointer is converted back to a pointer in a later statement (pointer arithmetic stays inside one expression; the nosplit noescape idiom excepted)", Covers: "element stores reach the destination even when it lives on a goroutine stack that moves during decoding", Min: 1, Run: c07r6},
 			{ID: "C16.R4", Title: "numeric store widths equal their kinds (shared with C16)", Covers: "integer and float destinations are written at their own width", Min: 60, Run: c16r4},
 			{ID: "C12.R1", Title: "the caller's input only feeds the private copy (shared with C12)", Covers: "decoding reads only its private copy of the input", Min: 12, Run: c12r1},
 			{ID: "C06.R5", Title: "look-ahead reads stay inside the buffer (shared with C06)", Covers: "no stray reads past the private copy", Min: 25, Run: c06r5},
@@ -169,6 +170,7 @@ func init() {
 		NotCovered: "cold-versus-warm equality itself, contents of recycled Ptrs slots, sticky options of a Decoder/Encoder object, user callbacks with their own state.",
 		Rules: []*core.Rule{
 			{ID: "C11.R1", Title: "for each function that takes a context from a sync.Pool and each field of the pooled structs read on a path reachable from it (VTA): the field is assigned in the entry's prologue (entry and its static callees, two levels, interpreters excluded), reset with the whole struct, or only re-sliced to length 0", Covers: "options, contexts and buffers of earlier calls never decide a later result", Min: 60, Run: c11r1},
+			{ID: "C02.R4", Title: "slots of the slice decoder's pooled working array are cleared on every path before the element decoder sees them (shared with C02)", Covers: "the result does not depend on what an earlier call left in pooled memory", Min: 2, Run: c02r4},
 			{ID: "C11.R2", Title: "for each `old := X.f; X.f = new; …; X.f = old` sequence: every path from the overwrite to a return passes a restoring assignment", Covers: "a compiled Path (and other shared handles) is unchanged after a failed call", Min: 2, Run: c11r2},
 			{ID: "C14.R2", Title: "the value stored in a type cache slot is the result of a compile call on the type argument only (shared with C14)", Covers: "same result on a cold and on a warm type cache", Configs: []string{"default", "race"}, Min: 8, Run: c14r2},
 			{ID: "C11.R4", Title: "ToOpcode/ToAnonymousOpcode/Filter/Kind methods of the Code tree never assign to a field of their receiver; compiled programs are not written at run time (C08.R8)", Covers: "building a filtered or escaped program does not change later programs", Min: 20, Run: c11r4},
@@ -219,6 +221,7 @@ func init() {
 			{ID: "C12.R2", Title: "every non-nil []byte returned by marshal/marshalContext/marshalNoEscape/marshalIndent is a MakeSlice filled by copy, and the copy precedes ReleaseRuntimeContext", Covers: "returned encodings are exclusively the caller's", Min: 8, Run: c12r2},
 			{ID: "C12.R3", Title: "every []byte passed to an UnmarshalJSON/UnmarshalText callback in a function with a *Stream parameter originates only from make/alloc in that call", Covers: "bytes handed to callbacks are not overwritten by later reads of the stream", Min: 8, Run: c12r3},
 			{ID: "C12.R5", Title: "every value assigned to Stream.buf is a fresh make, a forward re-slice of the window itself, a fresh copy, or an in-place splice that keeps the window prefix before the token being decoded", Covers: "values decoded earlier from a Decoder are not altered by later Decode calls (zero-copy strings keep their bytes)", Min: 7, Run: c12r5},
+			{ID: "C12.R6", Title: "in the sliceDecoder methods the destination header's data pointer (the header made from p, or newSlice's parameter) is only compared or overwritten, never used as a value that could become a pooled working header's array", Covers: "a slice handed back to the caller never shares memory with the decoder's pooled scratch array", Min: 4, Run: c12r6},
 			{ID: "C12.R4", Title: "every operand of unescapeString, traced through callers, originates from RuntimeContext.Buf, Stream.buf or fresh memory; ctx.Buf is only set to a slice made in the same call", Covers: "in-place rewriting never touches caller memory", Min: 5, Run: c12r4},
 		},
 	})
@@ -234,6 +237,7 @@ func init() {
 			{ID: "C13.R5", Title: "every function that takes an encoder RuntimeContext first assigns Flag = 0, then sets NormalizeUTF8Option and HTMLEscapeOption plus only the flag naming the entry", Covers: "Encoder.Encode, MarshalNoEscape, MarshalContext and Marshal start from the same option state", Min: 20, Run: c13r5},
 			{ID: "C08.R3", Title: "frame trailer placement and +3 sizing (shared with C08)", Covers: "MarshalIndent of recursive and interface values keeps its saved indentation", Min: 12, Run: c08r3},
 			{ID: "C13.R7", Title: "in both indenting helper packages appendMapKeyValue and appendMapKeyIndent pass the same depth to appendIndent, and so do appendMapEnd and appendObjectEnd", Covers: "UnorderedMap changes only the order of map members", Min: 4, Run: c13r7},
+			{ID: "C18.R6", Title: "every function of compact.go/indent.go that receives the HTML-escape flag passes its own parameter to each callee that takes one (compactString for keys and values, the object/array/value walkers)", Covers: "Compact and Indent escape the same bytes; MarshalIndent equals Indent(Marshal)", Min: 12, Run: c18r6},
 			{ID: "C13.R6", Title: "every read of Opcode.Indent outside the compiler is combined with ctx.BaseIndent: in one additive expression, assigned into BaseIndent, or passed (possibly through a local) to a parameter that is", Covers: "MarshalIndent indents values reached through interface{} or recursion like Indent(Marshal(v))", Min: 28, Run: c13r6},
 			{ID: "C03.R3", Title: "separator width protocol per VM package (shared with C03)", Covers: "no variant leaves or eats a separator", Min: 60, Run: c03r3},
 		},
@@ -290,6 +294,7 @@ func init() {
 			{ID: "C18.R5", Title: "compactValue/indentValue, compactObject/indentObject, compactArray/indentArray send each of the 256 byte values to an error, to the same delegate, or to inline handling alike", Covers: "Compact and Indent accept the same texts and share string/number/literal handling", Min: 3, Run: c18r5},
 			{ID: "C05.R1", Title: "byte classes of every scanner state (shared with C05; includes compactString)", Covers: "raw control characters and invalid escapes are rejected by Compact/Indent/Valid", Min: 100, Run: c05r1},
 			{ID: "C05.R7", Title: "every function named skipWhiteSpace (decoder buffer mode, decoder stream mode, encoder compact/indent) advances the cursor for exactly space, tab, line feed and carriage return, computed for all 256 byte values from the table test or case labels that guard the advance", Covers: "Compact/Indent/Valid accept the texts encoding/json accepts (CRLF documents)", Min: 3, Run: c05r7},
+			{ID: "C18.R6", Title: "every function of compact.go/indent.go that receives the HTML-escape flag passes its own parameter to each callee that takes one (compactString for keys and values, the object/array/value walkers)", Covers: "Compact and Indent escape the same bytes; MarshalIndent equals Indent(Marshal)", Min: 12, Run: c18r6},
 			{ID: "C05.R3", Title: "trailing-input check (shared with C05; includes encoder.validateEndBuf)", Covers: "anything after the value makes Compact/Indent fail", Min: 6, Run: c05r3},
 			{ID: "C05.R6", Title: "the number scanner of Compact/Indent/Valid checks each token against the JSON number grammar (shared with C05)", Covers: "Compact/Indent/Valid fail exactly when encoding/json's do (01, 1., -.5)", Min: 3, Run: c05r6},
 		},
